@@ -55,7 +55,7 @@ pub enum Fault {
     /// n-th epoll_wait of the process returns at most `max` events
     ShortBatch { pid: u32, nth: u64, max: i32 },
     /// n-th descriptor-creating call of the process fails with errno (EMFILE/ENFILE)
-    FdErr { pid: u32, nth: u64, errno: i32 },
+    FdErr { pid: u32, nth: u64, errno: i32, call: u16 },
     /// n-th poll() of the process returns EINTR
     PollEintr { pid: u32, nth: u64 },
     /// at scheduling step `step` the virtual clock jumps forward by `ns`
@@ -154,6 +154,7 @@ pub struct ProcCounters {
     pub epoll_waits: u64,
     pub polls: u64,
     pub fd_creates: u64,
+    pub fd_creates_by_call: [u64; 24],
     pub crashed: bool,
     pub crash_at: u64, // u64::MAX = not armed
     pub crash_base: u64,
@@ -236,6 +237,8 @@ pub struct Global {
     /// shared file mappings addr -> len
     pub maps: Vec<(usize, usize)>,
     pub log_seam: bool,
+    pub faults_suspended: bool,
+    pub pending_exit: i64,
 }
 
 static mut GLOBAL: Option<Box<Global>> = None;
@@ -591,6 +594,7 @@ fn reschedule(my: usize, exiting: bool) {
         baton_give(pick);
         if !exiting {
             baton_wait(my);
+            wait_pending_exit();
         }
         return;
     }
@@ -672,6 +676,8 @@ pub fn start(cfg: Config) {
         dev_cursor: 0,
         maps: Vec::new(),
         log_seam: false,
+        faults_suspended: false,
+        pending_exit: 0,
     });
     for p in gl.procs.iter_mut() {
         p.crash_at = u64::MAX;
@@ -894,14 +900,19 @@ fn apply_sndbuf(fd: i32) {
         }
     }
 }
-fn fd_fault() -> Option<i32> {
+fn fd_fault(call: u16) -> Option<i32> {
     let gl = g();
+    if gl.faults_suspended {
+        return None;
+    }
     let pid = gl.slots[me()].pid;
     let n = gl.procs[pid as usize].fd_creates;
     gl.procs[pid as usize].fd_creates += 1;
+    let nk = gl.procs[pid as usize].fd_creates_by_call[(call % 24) as usize];
+    gl.procs[pid as usize].fd_creates_by_call[(call % 24) as usize] += 1;
     for f in &gl.cfg.faults {
-        if let Fault::FdErr { pid: p, nth, errno } = *f {
-            if p == pid && nth == n {
+        if let Fault::FdErr { pid: p, nth, errno, call: c } = *f {
+            if p == pid && ((c == 0 && nth == n) || (c == call && nth == nk)) {
                 gl.stats.f_fderr += 1;
                 trace(S_FAULT, 4, errno as i64, n as i64);
                 return Some(errno);
@@ -909,6 +920,10 @@ fn fd_fault() -> Option<i32> {
         }
     }
     None
+}
+/// Suspend / resume descriptor-creation faults (around calls whose failure the library turns into a panic).
+pub fn suspend_fd_faults(on: bool) {
+    g().faults_suspended = on;
 }
 
 // ------------------------------------------------------------------ threads
@@ -937,13 +952,43 @@ unsafe extern "C" fn exit_dtor(v: *mut libc::c_void) {
     }
     trace(S_EXIT, slot as i64, 0, 0);
     gl.slots[slot].st = St::Exited;
+    // whoever runs next first waits until this thread's kernel task is really gone, so that the
+    // rest of its exit path never overlaps with simulated execution (measured: it can briefly
+    // hold a descriptor number, which made descriptor numbering - and hence hash-map iteration
+    // order inside the library - depend on real timing)
+    gl.pending_exit = raw6(libc::SYS_gettid, 0, 0, 0, 0, 0, 0);
     progress();
     reschedule(slot, true);
+}
+fn wait_pending_exit() {
+    let gl = g();
+    let t = gl.pending_exit;
+    if t <= 0 {
+        return;
+    }
+    unsafe {
+        let pid = raw6(libc::SYS_getpid, 0, 0, 0, 0, 0, 0);
+        let mut spins = 0u64;
+        while raw6(libc::SYS_tgkill, pid, t, 0, 0, 0, 0) == 0 {
+            spins += 1;
+            if spins > 200 {
+                let ts = libc::timespec { tv_sec: 0, tv_nsec: 20_000 };
+                raw6(libc::SYS_nanosleep, &ts as *const _ as i64, 0, 0, 0, 0, 0);
+            } else {
+                raw6(libc::SYS_sched_yield, 0, 0, 0, 0, 0, 0);
+            }
+            if spins > 2_000_000 {
+                break;
+            }
+        }
+    }
+    g().pending_exit = 0;
 }
 extern "C" fn tramp(p: *mut libc::c_void) -> *mut libc::c_void {
     let t = unsafe { Box::from_raw(p as *mut Tramp) };
     ME.with(|m| m.set(t.slot));
     baton_wait(t.slot);
+    wait_pending_exit();
     unsafe {
         libc::pthread_setspecific(EXIT_KEY.load(SeqCst), (t.slot + 1) as *mut _);
     }
@@ -1483,7 +1528,7 @@ pub unsafe extern "C" fn socketpair(d: i32, t: i32, p: i32, sv: *mut i32) -> i32
         return ret(raw6(libc::SYS_socketpair, d as i64, t as i64, p as i64, sv as i64, 0, 0)) as i32;
     }
     yield_point();
-    if let Some(e) = fd_fault() {
+    if let Some(e) = fd_fault(S_SOCKETPAIR) {
         trace(S_SOCKETPAIR, 0, 0, -(e as i64));
         return errno_ret(e) as i32;
     }
@@ -1506,7 +1551,7 @@ pub unsafe extern "C" fn socket(d: i32, t: i32, p: i32) -> i32 {
         return ret(raw6(libc::SYS_socket, d as i64, t as i64, p as i64, 0, 0, 0)) as i32;
     }
     yield_point();
-    if let Some(e) = fd_fault() {
+    if let Some(e) = fd_fault(S_SOCKET) {
         trace(S_SOCKET, 0, 0, -(e as i64));
         return errno_ret(e) as i32;
     }
@@ -1527,7 +1572,7 @@ unsafe fn accept_common(fd: i32, a: *mut libc::sockaddr, l: *mut libc::socklen_t
             block_on(Cond::Fd { fd, events: libc::POLLIN }, S_ACCEPT);
             continue;
         }
-        if let Some(e) = fd_fault() {
+        if let Some(e) = fd_fault(S_ACCEPT) {
             trace(S_ACCEPT, lid_of(fd), 0, -(e as i64));
             return errno_ret(e) as i32;
         }
@@ -1612,7 +1657,7 @@ pub unsafe extern "C" fn epoll_create1(flags: i32) -> i32 {
         return ret(raw6(libc::SYS_epoll_create1, flags as i64, 0, 0, 0, 0, 0)) as i32;
     }
     yield_point();
-    if let Some(e) = fd_fault() {
+    if let Some(e) = fd_fault(S_EPOLL_CREATE) {
         trace(S_EPOLL_CREATE, 0, 0, -(e as i64));
         return errno_ret(e) as i32;
     }
@@ -1640,7 +1685,7 @@ pub unsafe extern "C" fn dup(fd: i32) -> i32 {
         return ret(raw6(libc::SYS_dup, fd as i64, 0, 0, 0, 0, 0)) as i32;
     }
     yield_point();
-    if let Some(e) = fd_fault() {
+    if let Some(e) = fd_fault(S_DUP) {
         trace(S_DUP, lid_of(fd), 0, -(e as i64));
         return errno_ret(e) as i32;
     }
@@ -1659,7 +1704,7 @@ pub unsafe extern "C" fn fcntl(fd: i32, cmd: i32, arg: usize) -> i32 {
     yield_point();
     let creates = cmd == libc::F_DUPFD || cmd == libc::F_DUPFD_CLOEXEC;
     if creates {
-        if let Some(e) = fd_fault() {
+        if let Some(e) = fd_fault(S_FCNTL) {
             return errno_ret(e) as i32;
         }
     }
@@ -1682,7 +1727,7 @@ pub unsafe extern "C" fn shm_open(name: *const libc::c_char, oflag: i32, mode: l
         return real(name, oflag, mode);
     }
     yield_point();
-    if let Some(e) = fd_fault() {
+    if let Some(e) = fd_fault(S_SHM_OPEN) {
         trace(S_SHM_OPEN, 0, 0, -(e as i64));
         return errno_ret(e) as i32;
     }
